@@ -35,6 +35,8 @@ type frame struct {
 	parent *frame
 }
 
+func isPublicName(n string) bool { return n != "" && n[0] >= 'A' && n[0] <= 'Z' }
+
 func newFrame(parent *frame) *frame { return &frame{vars: map[string]*Value{}, parent: parent} }
 
 func (f *frame) lookup(name string) *Value {
@@ -56,6 +58,7 @@ type module struct {
 	funcs   map[string]*FuncDef
 	imports map[string]*module // alias -> module
 	ran     bool
+	kept    *frame // RerunImports only: the globals of the previous run of this module's top-level code
 }
 
 // Interp evaluates programs of the model AST.
@@ -138,6 +141,9 @@ func (in *Interp) runModule(name string, p *Prog) *module {
 		return m
 	}
 	if again {
+		// (defect model) the definitions of PUBLIC globals are dropped the second time - their values stay -,
+		// every other top-level statement runs again
+		m.kept = m.globals
 		m.globals = newFrame(nil)
 	} else {
 		m = &module{globals: newFrame(nil), funcs: map[string]*FuncDef{}, imports: map[string]*module{}}
@@ -457,6 +463,12 @@ func (in *Interp) exec(s Stmt, fr *frame) ctrl {
 	in.tick()
 	switch x := s.(type) {
 	case Define:
+		if in.RerunImports && in.cur != nil && in.cur.kept != nil && fr == in.cur.globals && len(x.Names) == 1 && isPublicName(x.Names[0]) {
+			if old, ok := in.cur.kept.vars[x.Names[0]]; ok {
+				fr.vars[x.Names[0]] = old
+				break
+			}
+		}
 		var vals []Value
 		if len(x.Vals) == 0 {
 			for range x.Names {
